@@ -220,6 +220,71 @@ func c05FieldsCase(kind string, mask int, rawP, rawT string, emit func(desc, inp
 	return payload
 }
 
+// c05History sends a sequence of requests to ONE service: what a handler sees must depend on its own
+// request only, whatever was received before (including rejected payloads).
+var c05HistPool = []struct {
+	payload string
+	ok      bool // reaches the handler
+	want    map[string]string
+}{
+	{``, true, map[string]string{}},
+	{`{}`, true, map[string]string{}},
+	{`{"cid":"c1","params":{"p":1},"token":{"t":1},"query":"q=1","isHttp":true,"host":"h1","uri":"/u1","remoteAddr":"r1","header":{"A":["1"]}}`, true,
+		map[string]string{"cid": "c1", "rawparams": `{"p":1}`, "rawtoken": `{"t":1}`, "query": "q=1", "ishttp": "true", "host": "h1", "uri": "/u1", "remoteAddr": "r1", "header": "A=1"}},
+	{`{"cid":"c2"}`, true, map[string]string{"cid": "c2"}},
+	{`{"cid":42,"params":{"p":2},"token":{"t":2},"query":"q=2","isHttp":true,"host":"h2","uri":"/u2","remoteAddr":"r2","header":{"B":["2"]}}`, false, nil},
+	{`{"token":{"t":3},"query":"q=3","isHttp":"yes"}`, false, nil},
+	{`{"params":[3]`, false, nil},
+	{`{"query":"q=4","params":null}`, true, map[string]string{"query": "q=4"}},
+}
+
+func c05History(kind string, seq []int, emit func(desc, input string)) {
+	subj := map[string]string{"access": "access.t.r", "get": "get.t.r", "call": "call.t.r.m", "auth": "auth.t.r.m"}[kind]
+	specs := []scen.HSpec{{Pattern: "r", Access: true, Get: true, Call: []string{"m"}, Auth: []string{"m"}}}
+	var reqs []scen.BatchReq
+	for _, i := range seq {
+		reqs = append(reqs, scen.BatchReq{Subject: subj, Payload: []byte(c05HistPool[i].payload)})
+	}
+	in := fmt.Sprintf("history\x1f%s\x1f%v", kind, seq)
+	results, r := scen.RunBatch("t", specs, []string{"ok"}, reqs)
+	if len(r.Panics) > 0 || r.Deadlock {
+		emit(fmt.Sprintf("%s request history %v: panics %v", kind, seq, r.Panics), in)
+		return
+	}
+	for k, i := range seq {
+		p := c05HistPool[i]
+		res := results[k]
+		if !p.ok {
+			cls := "none"
+			if len(res.Replies) > 0 {
+				cls, _ = ref.ResponseClass(res.Replies[0])
+			}
+			if len(res.Invoked) != 0 || cls != "error:system.internalError" {
+				emit(fmt.Sprintf("%s request #%d of history %v with undecodable payload %s: %d handlers invoked, response %v", kind, k, seq, p.payload, len(res.Invoked), res.Replies), in)
+			}
+			continue
+		}
+		if len(res.Invoked) != 1 {
+			emit(fmt.Sprintf("%s request #%d of history %v (payload %s): %d handlers invoked", kind, k, seq, p.payload, len(res.Invoked)), in)
+			continue
+		}
+		v := res.Invoked[0].Vals
+		for _, key := range []string{"cid", "rawparams", "rawtoken", "query", "ishttp", "host", "uri", "remoteAddr", "header"} {
+			w := p.want[key]
+			if key == "ishttp" && w == "" {
+				w = "false"
+			}
+			g := v[key]
+			if key == "rawparams" && g == "null" && w == "" {
+				continue
+			}
+			if g != w {
+				emit(fmt.Sprintf("%s request #%d of history %v (payload %s): handler saw %s=%q, sent %q", kind, k, seq, p.payload, key, g, w), in)
+			}
+		}
+	}
+}
+
 func runC05(c *seqCtx) {
 	emit := func(desc, input string) { c.Fail("C05", desc, input) }
 	subjects := c05Subjects()
@@ -287,6 +352,27 @@ func runC05(c *seqCtx) {
 		}
 	}
 	c.Sample(`auth.t.r.m {"cid":"c9","token":{"u":"x"},"uri":"/ws?x=1"} -> accessors`)
+	// request histories on one service
+	n := len(c05HistPool)
+	hlen := 3
+	for _, kind := range []string{"access", "get", "call", "auth"} {
+		var rec func(cur []int)
+		rec = func(cur []int) {
+			if len(cur) >= 2 && c.Mine() {
+				c05History(kind, cur, emit)
+				c.Eval(fmt.Sprintf("hist|%s|%v", kind, cur))
+				c.out.Transitions += int64(len(cur))
+			}
+			if len(cur) == hlen {
+				return
+			}
+			for i := 0; i < n; i++ {
+				rec(append(append([]int{}, cur...), i))
+			}
+		}
+		rec(nil)
+	}
+	c.Sample("history auth: [wrongly typed cid with token+isHttp] , [{}] -> second handler sees nothing of the first")
 	c.out.States = c.out.DistinctNontrivial
 }
 
@@ -304,6 +390,14 @@ func replayC05(input string) []string {
 			subj = []string{f[2]}
 		}
 		c05Dispatch(k[0], mask, k[2], subj, emit, func(string) {})
+	case "history":
+		var seq []int
+		for _, x := range strings.Fields(strings.Trim(f[2], "[]")) {
+			var i int
+			fmt.Sscan(x, &i)
+			seq = append(seq, i)
+		}
+		c05History(f[1], seq, emit)
 	case "fields":
 		var mask int
 		fmt.Sscan(f[2], &mask)
